@@ -26,7 +26,7 @@ func predTerm(mn, mx, iv time.Duration, inc bool, ed, bo time.Duration) string {
 }
 
 func runC20(o *out, r *rng, thorough bool, replay string) {
-	o.Rule = "predictor: random (min,default,max) settings and progress sequences (steady/bursty/stalled/resumed/huge) run on the real predictor and on the generated model; subscriber: real polling rounds over an in-process libp2p mocknet against a real server; non-trivial = sequence contains a progress != 1, or the polling round advanced the store"
+	o.Rule = "predictor: random (min,default,max) settings and progress sequences (steady/bursty/stalled/resumed/huge) run on the real predictor and on the generated model; subscriber: real polling rounds over an in-process libp2p mocknet against a real server; non-trivial = sequence contains a progress != 1, or the polling round advanced the store; the real Subscriber.run against a scripted slow peer on the mock clock: the wait after a round whose requests took time, and after rounds whose requests took none"
 	n := 400
 	if thorough {
 		n = 6000
